@@ -48,8 +48,23 @@ def handleArith (j : Json) : OpOut :=
   let dDelta := if mPct == "err" || oPct == "err" then [] else
     (if d.delta == oDelta then [] else ["delta"]) ++ (if d.err == oDerr then [] else ["delta-err"])
   let dPanic := match obs.getObjVal? "panic" with | .ok _ => ["panic"] | .error _ => []
+  -- monitor C13/C06 on the *observed* percentages: within 2⁻⁴⁰ (relative) of 100·R/C on exact rationals
+  let offBy (bits : String) (r c : Int) (what : String) : List String :=
+    if c ≤ 0 || r < 0 then [] else
+    match bits.toNat? with
+    | none => []
+    | some b =>
+      let exact : Rat := ((100 * r : Int) : Rat) / (c : Rat)
+      match ofBits64 b with
+      | none => ["C13:" ++ what ++ "-utilisation-not-finite", "C06:" ++ what ++ "-utilisation-not-finite"]
+      | some v =>
+        let err := if v ≥ exact then v - exact else exact - v
+        if err ≤ exact / ((2 ^ 40 : Nat) : Rat) then [] else
+          ["C13:" ++ what ++ "-utilisation-is-not-100*requests/capacity", "C06:" ++ what ++ "-utilisation-is-not-100*requests/capacity"]
+  let monPct : List String :=
+    if oPct == "vals" then offBy (getD obs "cpuBits" "") cpuReq cpuCap "cpu" ++ offBy (getD obs "memBits" "") memReq memCap "mem" else []
   -- monitor C05 on the *observed* delta, with exact rationals
-  let mon : List String :=
+  let mon : List String := monPct ++
     if oPct == "vals" && n > 0 then
       let over := 100 * cpuReq > T * cpuCap || 100 * memReq > T * memCap
       if over then
